@@ -31,11 +31,14 @@ def instances(tier, seed):
             add(f"self:{sname}:{rp}:axis{a}", struct=sname, repl=rp, axes=[a], other=(0.35, 0.9, 0.6), mode='self', st_terms=True, charges=True,
                 symmetric=sname in ('S12', 'S8'), cost=30)
     add("self:S1:chiral4->chiral4:replace_all", struct='S1', repl='chiral4->chiral4', axes=[2], other=(0.35, 0.9, 0), mode='self-sites', replace_all=True, cost=20)
-    aba = [('S6', 'single->F', 'singleF->H', 1), ('S1', 'chiral4->CHSP', 'chiralCHSP->chiral4', 2), ('S6', 'single->F', 'singleF->H', 0)]
+    aba = [('S6', 'single->F', 'singleF->H', 1), ('S1', 'chiral4->CHSP', 'chiralCHSP->chiral4', 2), ('S6', 'single->F', 'singleF->H', 0),
+           ('S2', 'chiral4->CHSP', 'chiralCHSP->chiral4', 1)]
     if tier == 'thorough':
-        aba += [('S5', 'pair->CF', 'pairCF->pair', 0), ('S2', 'chiral4->CHSP', 'chiralCHSP->chiral4', 1)]
+        aba += [('S5', 'pair->CF', 'pairCF->pair', 0)]
+    add("aba:S6:single->F:singleF->H:unused-type-row", struct='S6', repl='single->F', repl2='singleF->H', axes=[2], other=(0.8, 0.15, 0), mode='aba',
+        unused_type_row=True, cost=20)
     for sname, r1, r2, ax in aba:
-        for a in ([ax] if tier == 'quick' or sname in ('S5', 'S2') else [0, 1, 2]):
+        for a in ([ax] if tier == 'quick' or sname in ('S5',) else [0, 1, 2]):
             add(f"aba:{sname}:{r1}:{r2}:axis{a}", struct=sname, repl=r1, repl2=r2, axes=[a], other=(0.8, 0.15, 0.5), mode='aba', cost=60)
     return out
 
@@ -84,5 +87,5 @@ SELFTESTS = [
          instance=dict(family='roundtrip', struct='S5', repl='pair->pair', axes=[2], other=(0.35, 0.9, 0.6), mode='self', st_terms=True, charges=True)),
     dict(name='offset-from-max-type-in-use', quick=True,
          mutate=[('mofun.atoms', "offsets = (self.num_atom_types, self.num_bond_types,", "offsets = (max(self.atom_types, default=-1) + 1, self.num_bond_types,")],
-         instance=dict(family='roundtrip', struct='S6', repl='single->F', repl2='singleF->H', axes=[1], other=(0.8, 0.15, 0.5), mode='aba')),
+         instance=dict(family='roundtrip', struct='S6', repl='single->F', repl2='singleF->H', axes=[2], other=(0.8, 0.15, 0), mode='aba', unused_type_row=True)),
 ]
